@@ -971,6 +971,7 @@ func (x *executor) havocLoopRegion(m *machine, fr *frame, li *loopInfo, lr *loop
 	for _, mt := range lr.modRefs {
 		x.havocTarget(m.st, mt)
 	}
+	x.havocRangeGhosts(m.st, li)
 	// the allocator state at the start of an arbitrary iteration: earlier iterations may have allocated
 	// references in [base, mark); this iteration allocates base-1, base-2, ...
 	base := c.d.fresh("allocbase", "Int")
